@@ -10,6 +10,7 @@ import (
 	"github.com/remieven/ysgo/verifharness/gen"
 	"github.com/remieven/ysgo/verifharness/hast"
 	"github.com/remieven/ysgo/verifharness/model"
+	"github.com/remieven/ysgo/verifharness/mon"
 )
 
 // C03 — variables: (compound) assignment, type stability, storer is source of truth.
@@ -43,6 +44,7 @@ func (c03) Thresholds(tier string) map[string]int64 {
 		"default-store-runs":          1000,
 		"typed-slot-checks":           20000,
 		"compound-on-absent-variable": 200,
+		"restore-in-mid-history":      300,
 	}
 	for _, op := range assignOps {
 		for _, cur := range curKinds {
@@ -64,7 +66,7 @@ func (c03) Exhaustive(tier string) (bool, string) {
 }
 
 func (c03) Rule() string {
-	return "case 0 = the complete assignment table (every operator x current type incl. absent x assigned type, via set and via declare), on the recording store and on the default store. Every other case = one history of 8-40 set/declare statements over 4 variables (one in five deliberately ill-typed, compound assignments to unknown variables included), interleaved with lines {$v} and with host writes made directly on the store between two steps (same-type overwrite or a new variable); blocks of the history are executed 2-3 times by the same runner through a jump loop. A script ends after the statement the model predicts to fail; the history continues in a new runner whose store the host pre-populates with the current values. Oracle after every Next: store content == model; no name under two types (recording store: no Set* on a name holding another type; default store: typed-name lists read through the verif hook); a predicted failure returns an error and leaves the store equal to the model's state before the statement; lines show the values the host just wrote. Non-trivial: the history has >=1 compound assignment and (a failing statement or a host write that is read back). Distinct by hash of the scripts + host writes."
+	return "case 0 = the complete assignment table (every operator x current type incl. absent x assigned type, via set and via declare), on the recording store and on the default store. Every other case = one history of 8-40 set/declare statements over 4 variables (one in five deliberately ill-typed, compound assignments to unknown variables included), interleaved with lines {$v} and with host writes made directly on the store between two steps (same-type overwrite or a new variable); blocks of the history are executed 2-3 times by the same runner through a jump loop. Now and then the host restores the runner from its own snapshot in mid-history (the run resumes at the node entry and must keep using the host's store). A script ends after the statement the model predicts to fail; the history continues in a new runner whose store the host pre-populates with the current values. Oracle after every Next: store content == model; no name under two types (recording store: no Set* on a name holding another type; default store: typed-name lists read through the verif hook); a predicted failure returns an error and leaves the store equal to the model's state before the statement; lines show the values the host just wrote. Non-trivial: the history has >=1 compound assignment and (a failing statement or a host write that is read back). Distinct by hash of the scripts + host writes."
 }
 
 func (c03) Assumptions() []string {
@@ -301,6 +303,7 @@ func (p c03) runHistory(c *core.Ctx, items []c03item, compound int) {
 			return
 		}
 		pendingRead := map[string]bool{}
+		restored := false
 		for step := 0; step < 400; step++ {
 			before := snapshotVars(pair.M.Vars)
 			want, got, diff := pair.Step(0)
@@ -331,6 +334,24 @@ func (p c03) runHistory(c *core.Ctx, items []c03item, compound int) {
 					pair.HostWrite(w.name, adaptWrite(pair.M.Vars, w))
 					pendingRead[w.name] = true
 					c.Feature("host-writes")
+				}
+				// now and then the host restores the runner from its own snapshot: afterwards the runner must
+				// still read and write the store the host supplied (the run resumes at the node entry)
+				if !restored && r.Chance(1, 12) {
+					restored = true
+					snap := pair.R.DR.Snapshot()
+					if err := pair.R.DR.RestoreAt(snap); err != nil {
+						c.Violate("restoring a runner from its own snapshot failed: "+err.Error(), map[string]any{"readers": scripts})
+						return
+					}
+					pair.M.Restore(pair.M.Check.Clone())
+					pair.Trace = append(pair.Trace, "host: RestoreAt(Snapshot())")
+					pendingRead = map[string]bool{}
+					c.Feature("restore-in-mid-history")
+					if d := mon.StateDiff(pair.M.Vars, pair.Store()); d != "" {
+						c.Violate("after RestoreAt the host-supplied store does not hold the snapshot's variables: "+d, pair.Detail(nil, want, got, d))
+						return
+					}
 				}
 			}
 			if want.Kind == model.OEnd || want.Kind == model.OBudget {
